@@ -81,8 +81,10 @@ func (i *itemsValidator) Validate(index int, data interface{}) *Result {
 		}()
 	}
 
-	tpe := reflect.TypeOf(data)
-	kind := tpe.Kind()
+	var kind reflect.Kind // a null item keeps the invalid kind: only the kind-agnostic validators (type, enum) apply
+	if tpe := reflect.TypeOf(data); tpe != nil {
+		kind = tpe.Kind()
+	}
 	var result *Result
 	if i.Options.recycleResult {
 		result = pools.poolOfResults.BorrowResult()
